@@ -408,6 +408,7 @@ func runC17(c *Ctx) {
 	runC17P12Std(c)
 	runC17P12Fixtures(c)
 	runC17P12Files(c)
+	runC17P12Concurrent(c)
 }
 
 type sdCheck struct {
